@@ -1803,4 +1803,459 @@ theorem iterate_serve_pipelined (qs : List WfReq) (hq : ∀ q ∈ qs, WellFormed
     rw [hs']
     simp
 
+/-! ### chunked bodies -/
+
+theorem blocksStep_nosize (s : Sock) (m : Nat) (body : Bytes) (h0 : 0 < m) (hm : m ≤ s.inp.length)
+    (hc : s.closed = false) :
+    blocksStep ⟨s, m, 0, body⟩ =
+      .ok (.next ⟨{ s with inp := s.inp.drop (min m 16000) }, ((m - min m 16000 : Nat) : Int), 0,
+                    body ++ s.inp.take (min m 16000)⟩) := by
+  unfold blocksStep
+  have h1 : ¬ ((m : Int) ≤ 0) := by omega
+  have h3 : ((0 : Int) != 0) = false := rfl
+  simp only [h1, if_false, h3, Bool.false_eq_true]
+  have hk : (min (m : Int) 16000).toNat = min m 16000 := by omega
+  rw [hk, rawRead_exact s (min m 16000) (by omega) (by omega) hc]
+  have hgl : (s.inp.take (min m 16000)).length = min m 16000 := by rw [List.length_take]; omega
+  have h2 : ((s.inp.take (min m 16000)).length == 0) = false := by
+    rw [hgl]; simp only [beq_eq_false_iff_ne, ne_eq]; omega
+  have hcast : (m : Int) - (((s.inp.take (min m 16000)).length : Nat) : Int) = ((m - min m 16000 : Nat) : Int) := by
+    rw [hgl]; omega
+  simp only [h2, Bool.false_eq_true, if_false, pure, Except.pure, hcast]
+
+/-- a chunk of `m` pending bytes (no Content-Length countdown) is appended whole; the loop leaves normally -/
+theorem iterate_blocks_chunk :
+    ∀ (fuel : Nat) (s : Sock) (m : Nat) (body : Bytes), m ≤ s.inp.length → s.closed = false → m + 1 < fuel + 1 →
+      iterate blocksStep fuel ⟨s, m, 0, body⟩ =
+        .ok ⟨{ s with inp := s.inp.drop m }, 0, body ++ s.inp.take m, false⟩ := by
+  intro fuel
+  induction fuel with
+  | zero => intro s m body _ _ hf; omega
+  | succ fuel ih =>
+    intro s m body hm hc hf
+    simp only [iterate]
+    by_cases h0 : m = 0
+    · subst h0
+      unfold blocksStep
+      simp only [Int.natCast_zero, Int.le_refl, if_true, List.drop_zero, List.take_zero, List.append_nil]
+      rfl
+    · rw [blocksStep_nosize s m body (by omega) hm hc]
+      simp only []
+      have := ih { s with inp := s.inp.drop (min m 16000) } (m - min m 16000) (body ++ s.inp.take (min m 16000))
+        (by simp only [List.length_drop]; omega) hc (by omega)
+      rw [this]
+      have e : min m 16000 + (m - min m 16000) = m := by omega
+      have hd : (s.inp.drop (min m 16000)).drop (m - min m 16000) = s.inp.drop m := by
+        rw [List.drop_drop, e]
+      have ht : s.inp.take (min m 16000) ++ (s.inp.drop (min m 16000)).take (m - min m 16000) = s.inp.take m := by
+        conv => rhs; rw [← e, List.take_add]
+      simp only [hd, List.append_assoc, ht]
+
+/-- one chunk on the wire: a size line (any spelling the code parses to the data length), CRLF, the data, CRLF -/
+structure Chunk where
+  sizeLine : Bytes
+  data : Bytes
+
+def Chunk.bytes (c : Chunk) : Bytes := c.sizeLine ++ 13 :: 10 :: (c.data ++ [13, 10])
+
+structure ChunkOk (c : Chunk) : Prop where
+  no_lf : ∀ b ∈ c.sizeLine, b ≠ 10
+  short : c.sizeLine.length ≤ 16000
+  size : hexToInt (c.sizeLine ++ [13]) = (c.data.length : Int)
+  nonempty : 0 < c.data.length
+
+theorem bodyStep_chunk (s : Sock) (body rest : Bytes) (c : Chunk) (hk : ChunkOk c) (he : s.err = 0)
+    (hc : s.closed = false) (hi : s.inp = c.bytes ++ rest) :
+    bodyStep true ⟨s, 0, body⟩ = .ok (.next ⟨{ s with inp := rest }, 0, body ++ c.data⟩) := by
+  obtain ⟨inp, err, closed, out⟩ := s
+  simp only at he hc hi
+  subst he hc
+  have hline : (⟨inp, 0, false, out⟩ : Sock).readLine =
+      (c.sizeLine ++ [13], ⟨c.data ++ 13 :: 10 :: rest, 0, false, out⟩) := by
+    apply readLine_line _ _ _ rfl rfl
+    · rw [hi]; simp [Chunk.bytes]
+    · intro b hb
+      simp only [List.mem_append, List.mem_cons, List.not_mem_nil, or_false] at hb
+      rcases hb with h | rfl
+      · exact hk.no_lf b h
+      · decide
+    · have := hk.short; simp only [List.length_append, List.length_cons, List.length_nil]; omega
+  unfold bodyStep
+  have hav : ¬ ((⟨inp, 0, false, out⟩ : Sock).available < 0) := by
+    unfold Sock.available; simp
+  simp only [hav, if_false, if_true, hline, hk.size]
+  unfold readBlocks
+  rw [iterate_blocks_chunk _ ⟨c.data ++ 13 :: 10 :: rest, 0, false, out⟩ c.data.length body
+    (by simp only [List.length_append, List.length_cons]; omega) rfl
+    (by simp only [List.length_append, List.length_cons]; omega)]
+  have hd : (c.data ++ 13 :: 10 :: rest).drop c.data.length = 13 :: 10 :: rest := by
+    rw [List.drop_left' rfl]
+  have ht : (c.data ++ 13 :: 10 :: rest).take c.data.length = c.data := by
+    rw [List.take_left' rfl]
+  simp only [bind, Except.bind, Bool.false_eq_true, if_false, hd, ht]
+  rw [rawRead_exact ⟨13 :: 10 :: rest, 0, false, out⟩ 2 (by omega) (by simp) rfl]
+  have hn0 : ((c.data.length : Int) == 0) = false := by
+    have := hk.nonempty
+    simp only [beq_eq_false_iff_ne, ne_eq]; omega
+  simp only [List.take_succ_cons, List.take_zero, List.length_cons, List.length_nil, Nat.lt_irrefl, if_false, hn0,
+    Bool.false_eq_true, List.drop_succ_cons, List.drop_zero, pure, Except.pure]
+
+/-- the terminating chunk: a size line that parses to 0, CRLF, CRLF -/
+theorem bodyStep_last (s : Sock) (body rest sizeLine : Bytes) (hlf : ∀ b ∈ sizeLine, b ≠ 10)
+    (hshort : sizeLine.length ≤ 16000) (hz : hexToInt (sizeLine ++ [13]) = 0) (he : s.err = 0)
+    (hc : s.closed = false) (hi : s.inp = sizeLine ++ 13 :: 10 :: 13 :: 10 :: rest) :
+    bodyStep true ⟨s, 0, body⟩ = .ok (.done ({ s with inp := rest }, body)) := by
+  obtain ⟨inp, err, closed, out⟩ := s
+  simp only at he hc hi
+  subst he hc
+  have hline : (⟨inp, 0, false, out⟩ : Sock).readLine =
+      (sizeLine ++ [13], ⟨13 :: 10 :: rest, 0, false, out⟩) := by
+    apply readLine_line _ _ _ rfl rfl
+    · rw [hi]; simp
+    · intro b hb
+      simp only [List.mem_append, List.mem_cons, List.not_mem_nil, or_false] at hb
+      rcases hb with h | rfl
+      · exact hlf b h
+      · decide
+    · simp only [List.length_append, List.length_cons, List.length_nil]; omega
+  unfold bodyStep
+  have hav : ¬ ((⟨inp, 0, false, out⟩ : Sock).available < 0) := by
+    unfold Sock.available; simp
+  simp only [hav, if_false, if_true, hline, hz]
+  unfold readBlocks
+  have := iterate_blocks_chunk ((13 :: 10 :: rest).length + 1) ⟨13 :: 10 :: rest, 0, false, out⟩ 0 body
+    (Nat.zero_le _) rfl (by simp only [List.length_cons]; omega)
+  simp only [Int.natCast_zero] at this
+  rw [this]
+  simp only [bind, Except.bind, Bool.false_eq_true, if_false, List.drop_zero, List.take_zero, List.append_nil]
+  rw [rawRead_exact ⟨13 :: 10 :: rest, 0, false, out⟩ 2 (by omega) (by simp) rfl]
+  simp only [List.take_succ_cons, List.take_zero, List.length_cons, List.length_nil, Nat.lt_irrefl, if_false,
+    BEq.rfl, if_true, List.drop_succ_cons, List.drop_zero, pure, Except.pure]
+
+/-- a chunked body: every chunk is appended in order, the terminating chunk ends the body, the rest stays unread -/
+theorem iterate_body_chunked (cs : List Chunk) (sizeLine rest : Bytes) (hcs : ∀ c ∈ cs, ChunkOk c)
+    (hlf : ∀ b ∈ sizeLine, b ≠ 10) (hshort : sizeLine.length ≤ 16000) (hz : hexToInt (sizeLine ++ [13]) = 0) :
+    ∀ (fuel : Nat) (s : Sock) (body : Bytes), s.err = 0 → s.closed = false →
+      s.inp = cs.flatMap Chunk.bytes ++ (sizeLine ++ 13 :: 10 :: 13 :: 10 :: rest) → cs.length < fuel →
+      iterate (bodyStep true) fuel ⟨s, 0, body⟩ = .ok ({ s with inp := rest }, body ++ (cs.map Chunk.data).flatten) := by
+  induction cs with
+  | nil =>
+    intro fuel s body he hc hi hf
+    obtain ⟨f, rfl⟩ : ∃ f, fuel = f + 1 := ⟨fuel - 1, by omega⟩
+    simp only [iterate]
+    rw [bodyStep_last s body rest sizeLine hlf hshort hz he hc (by simpa using hi)]
+    simp [pure, Except.pure]
+  | cons c t ih =>
+    intro fuel s body he hc hi hf
+    obtain ⟨f, rfl⟩ : ∃ f, fuel = f + 1 := ⟨fuel - 1, by simp at hf; omega⟩
+    simp only [iterate]
+    rw [bodyStep_chunk s body (t.flatMap Chunk.bytes ++ (sizeLine ++ 13 :: 10 :: 13 :: 10 :: rest)) c
+      (hcs c (by simp)) he hc (by rw [hi]; simp)]
+    simp only []
+    rw [ih (fun x hx => hcs x (by simp [hx])) f { s with inp := t.flatMap Chunk.bytes ++ (sizeLine ++ 13 :: 10 :: 13 :: 10 :: rest) }
+      (body ++ c.data) he hc rfl (by simp at hf; omega)]
+    simp
+
+/-! ### whole chunked requests -/
+
+/-- request line + header block are well formed (no framing condition yet) -/
+structure HeadOk (m t p : Bytes) (hs : List (Bytes × Bytes)) : Prop where
+  method_ne : m ≠ []
+  method_ok : ∀ c ∈ m, c ≠ 32 ∧ c ≠ 0 ∧ c ≠ 10
+  target_ok : ∀ c ∈ t, c ≠ 32 ∧ c ≠ 0 ∧ c ≠ 10
+  proto_ok : ValueOk p
+  line_len : m.length + t.length + p.length + 3 ≤ 16001
+  headers_ok : HeadersOk hs
+  no_expect : (cstr (header (hdrDic hs) sExpect) == s100continue) = false
+
+/-- the request record `read` builds -/
+def mkReq (m t p : Bytes) (tg : Target) (h : Dic) (body : Bytes) : Req :=
+  { method := m, res := t, proto := p, path := tg.path, query := tg.query, fragment := tg.fragment,
+    parts := tg.parts, headers := h, body := body }
+
+/-- after a well-formed head, `read` is: read the body from what follows, then derive the path from the target -/
+theorem read_head (s : Sock) (m t p : Bytes) (hs : List (Bytes × Bytes)) (tail : Bytes) (hw : HeadOk m t p hs)
+    (he : s.err = 0) (hc : s.closed = false)
+    (hi : s.inp = m ++ 32 :: (t ++ 32 :: (p ++ 13 :: 10 :: (hdrBlock hs ++ 13 :: 10 :: tail)))) :
+    AslModel.HttpParse.read s =
+      (match readBody { s with inp := tail } (hdrDic hs) with
+       | .error e => .error e
+       | .ok b => match parseTarget t with
+         | .error e => .error e
+         | .ok tg => .ok (mkReq m t p tg (hdrDic hs) b.2, b.1)) := by
+  obtain ⟨hp0, hp1, hp2, hp3⟩ := hw.proto_ok
+  have hline : s.readLine =
+      (m ++ 32 :: (t ++ 32 :: (p ++ [13])), { s with inp := hdrBlock hs ++ 13 :: 10 :: tail }) := by
+    apply readLine_line _ _ _ he hc
+    · rw [hi]; simp
+    · intro c hcm
+      simp only [List.mem_append, List.mem_cons, List.not_mem_nil, or_false] at hcm
+      rcases hcm with h | rfl | h | rfl | h | rfl
+      · exact (hw.method_ok c h).2.2
+      · decide
+      · exact (hw.target_ok c h).2.2
+      · decide
+      · exact hp1 c h
+      · decide
+    · have := hw.line_len
+      simp only [List.length_append, List.length_cons, List.length_nil]; omega
+  unfold AslModel.HttpParse.read
+  simp only [hline]
+  have hne : ((m ++ 32 :: (t ++ 32 :: (p ++ [13]))).length == 0) = false := by simp
+  have he' : (s.err != 0) = false := by simp [he]
+  simp only [he', hne, Bool.or_self, Bool.false_eq_true, if_false]
+  rw [parseRequestLine_faithful m t (p ++ [13])
+    (fun c hc => ⟨(hw.method_ok c hc).1, (hw.method_ok c hc).2.1⟩)
+    (fun c hc => ⟨(hw.target_ok c hc).1, (hw.target_ok c hc).2.1⟩)]
+  simp only [bind, Except.bind]
+  have hproto : trimmed (p ++ [13]) = p := by
+    have := trimmed_core [] p [13] (by simp) (by decide) hp0 hp2 hp3
+    simpa using this
+  rw [hproto]
+  unfold readHeaders
+  rw [iterate_headers hs tail hw.headers_ok _ { s with inp := hdrBlock hs ++ 13 :: 10 :: tail } [] [] [] he hc rfl
+    (by have := hdrBlock_length hs; simp only [List.length_append, List.length_cons]; omega)]
+  simp only []
+  have hfold : List.foldl (fun d nv => setHeader d nv.fst nv.snd) [] hs = hdrDic hs := rfl
+  simp only [hfold]
+  have hexp : ∀ x : Sock, expectContinue x (hdrDic hs) = x := by
+    intro x
+    unfold expectContinue
+    simp only [hw.no_expect, Bool.false_eq_true, if_false]
+  rw [hexp]
+  cases readBody { s with inp := tail } (hdrDic hs) with
+  | error e => rfl
+  | ok b =>
+    cases parseTarget t with
+    | error e => rfl
+    | ok tg => rfl
+
+theorem readBody_chunked (s : Sock) (h : Dic) (cs : List Chunk) (sizeLine rest : Bytes) (hcs : ∀ c ∈ cs, ChunkOk c)
+    (hlf : ∀ b ∈ sizeLine, b ≠ 10) (hshort : sizeLine.length ≤ 16000) (hz : hexToInt (sizeLine ++ [13]) = 0)
+    (he : s.err = 0) (hc : s.closed = false)
+    (hi : s.inp = cs.flatMap Chunk.bytes ++ (sizeLine ++ 13 :: 10 :: 13 :: 10 :: rest))
+    (hcl : hasHeader h sContentLength = false) (hte : (cstr (header h sTransferEncoding) == sChunked) = true) :
+    readBody s h = .ok ({ s with inp := rest }, (cs.map Chunk.data).flatten) := by
+  unfold readBody
+  have hsz : myatoi 32 (cstr (header h sContentLength)) = 0 := by
+    unfold header hasHeader at *
+    cases hf : dicFind h (capitalized sContentLength) with
+    | none => rfl
+    | some v => rw [hf] at hcl; simp at hcl
+  simp only [hcl, hte, Bool.false_and, Bool.false_eq_true, if_false, Bool.not_true, Bool.and_false, hsz]
+  have hlen : cs.length ≤ (cs.flatMap Chunk.bytes).length := by
+    clear hi hcs
+    induction cs with
+    | nil => simp
+    | cons c t ih =>
+      simp only [List.flatMap_cons, List.length_append, List.length_cons, Chunk.bytes]
+      omega
+  have := iterate_body_chunked cs sizeLine rest hcs hlf hshort hz (s.inp.length + 2) s [] he hc hi
+    (by rw [hi]; simp only [List.length_append]; omega)
+  rw [this]
+  simp
+
+/-- **read ∘ serialize = id for chunked framing**: a well-formed head with `Transfer-Encoding: chunked`, any number
+    of chunks, the terminating chunk, then arbitrary further bytes -/
+theorem read_faithful_chunked_aux (s : Sock) (m t p : Bytes) (hs : List (Bytes × Bytes)) (cs : List Chunk)
+    (sizeLine rest : Bytes) (hw : HeadOk m t p hs) (hcs : ∀ c ∈ cs, ChunkOk c)
+    (hlf : ∀ b ∈ sizeLine, b ≠ 10) (hshort : sizeLine.length ≤ 16000) (hz : hexToInt (sizeLine ++ [13]) = 0)
+    (hcl : hasHeader (hdrDic hs) sContentLength = false)
+    (hte : (cstr (header (hdrDic hs) sTransferEncoding) == sChunked) = true)
+    (he : s.err = 0) (hc : s.closed = false)
+    (hi : s.inp = m ++ 32 :: (t ++ 32 :: (p ++ 13 :: 10 :: (hdrBlock hs ++ 13 :: 10 ::
+            (cs.flatMap Chunk.bytes ++ (sizeLine ++ 13 :: 10 :: 13 :: 10 :: rest)))))) :
+    ∃ tg, parseTarget t = .ok tg ∧
+      AslModel.HttpParse.read s = .ok (mkReq m t p tg (hdrDic hs) (cs.map Chunk.data).flatten, { s with inp := rest }) := by
+  obtain ⟨tg, htg, _, _⟩ := parseTarget_ok t
+  refine ⟨tg, htg, ?_⟩
+  rw [read_head s m t p hs _ hw he hc hi]
+  rw [readBody_chunked { s with inp := cs.flatMap Chunk.bytes ++ (sizeLine ++ 13 :: 10 :: 13 :: 10 :: rest) }
+    (hdrDic hs) cs sizeLine rest hcs hlf hshort hz he hc rfl hcl hte]
+  simp only [htg]
+
+/-! ### canonical chunk-size lines: lowercase hexadecimal without leading zeros -/
+
+def hexDigitChar (d : Nat) : UInt8 := if d < 10 then UInt8.ofNat (48 + d) else UInt8.ofNat (87 + d)
+
+/-- the hexadecimal digits of `n`, most significant first (`"%x"`) -/
+def hexDigitsOf (n : Nat) : Bytes :=
+  if h : n < 16 then [hexDigitChar n] else hexDigitsOf (n / 16) ++ [hexDigitChar (n % 16)]
+termination_by n
+decreasing_by omega
+
+theorem hexVal_digit : ∀ d, d < 16 → hexVal (hexDigitChar d) = some d := by decide
+
+theorem hexDigitChar_props : ∀ d, d < 16 →
+    hexDigitChar d ≠ 0 ∧ hexDigitChar d ≠ 10 ∧ cIsSpace (hexDigitChar d) = false ∧ hexDigitChar d ≠ 45 ∧
+    hexDigitChar d ≠ 43 ∧ hexDigitChar d ≠ 120 ∧ hexDigitChar d ≠ 88 := by decide
+
+theorem hexDigits_of (n : Nat) : ∀ (t : Bytes) (acc : Nat),
+    ∃ k, hexDigits (hexDigitsOf n ++ t) acc = hexDigits t (acc * 16 ^ k + n) := by
+  induction n using Nat.strongRecOn with
+  | _ n ih =>
+    intro t acc
+    rw [hexDigitsOf]
+    by_cases h : n < 16
+    · simp only [h, dite_true, List.singleton_append, hexDigits, hexVal_digit n h]
+      exact ⟨1, by simp⟩
+    · simp only [h, dite_false, List.append_assoc, List.singleton_append]
+      obtain ⟨k, hk⟩ := ih (n / 16) (by omega) (hexDigitChar (n % 16) :: t) acc
+      rw [hk]
+      simp only [hexDigits, hexVal_digit (n % 16) (by omega)]
+      refine ⟨k + 1, ?_⟩
+      congr 1
+      rw [Nat.pow_succ, ← Nat.mul_assoc, Nat.add_mul, Nat.add_assoc]
+      congr 1
+      omega
+
+theorem hexDigitsOf_ne_nil (n : Nat) : hexDigitsOf n ≠ [] := by
+  rw [hexDigitsOf]
+  by_cases h : n < 16 <;> simp [h]
+
+theorem hexDigitsOf_mem (n : Nat) : ∀ c ∈ hexDigitsOf n, ∃ d, d < 16 ∧ c = hexDigitChar d := by
+  induction n using Nat.strongRecOn with
+  | _ n ih =>
+    intro c hc
+    rw [hexDigitsOf] at hc
+    by_cases h : n < 16
+    · simp only [h, dite_true, List.mem_singleton] at hc
+      exact ⟨n, h, hc⟩
+    · simp only [h, dite_false, List.mem_append, List.mem_singleton] at hc
+      rcases hc with hc | hc
+      · exact ih (n / 16) (by omega) c hc
+      · exact ⟨n % 16, by omega, hc⟩
+
+theorem strtoul16_plain (d0 : UInt8) (r : Bytes) (h0 : cIsSpace d0 = false) (h1 : d0 ≠ 45) (h2 : d0 ≠ 43)
+    (hx : ∀ x t, r = x :: t → x ≠ 120 ∧ x ≠ 88) (hv : hexDigits (d0 :: r) 0 < 2 ^ 64) :
+    strtoul16 (d0 :: r) = hexDigits (d0 :: r) 0 := by
+  unfold strtoul16
+  have hdw : (d0 :: r).dropWhile cIsSpace = d0 :: r := dropWhile_head_false _ _ _ h0
+  have hsign : stripSign (d0 :: r) = (false, d0 :: r) := by
+    unfold stripSign
+    split
+    · rename_i t heq; simp only [List.cons.injEq] at heq; exact absurd heq.1 h1
+    · rename_i t heq; simp only [List.cons.injEq] at heq; exact absurd heq.1 h2
+    · rfl
+  have hpre : strip0x (d0 :: r) = d0 :: r := by
+    unfold strip0x
+    split
+    · rename_i x h t heq
+      simp only [List.cons.injEq] at heq
+      obtain ⟨hx1, hx2⟩ := hx x (h :: t) heq.2
+      have : (x == 120 || x == 88) = false := by simp [hx1, hx2]
+      simp only [this, Bool.false_and, Bool.false_eq_true, if_false]
+      rw [heq.1, heq.2]
+    · rfl
+  simp only [hdw, hsign, hpre]
+  have : ¬ (hexDigits (d0 :: r) 0 ≥ 2 ^ 64) := by omega
+  simp only [this, if_false, Bool.false_eq_true]
+
+theorem wrap32_small (n : Nat) (h : n < 2 ^ 31) : wrap 32 ((n % 2 ^ 32 : Nat) : Int) = (n : Int) := by
+  unfold wrap
+  have e1 : (2 : Int) ^ (32 - 1) = 2147483648 := by decide
+  have e2 : (2 : Int) ^ 32 = 4294967296 := by decide
+  have e3 : (2 : Nat) ^ 32 = 4294967296 := by decide
+  have e4 : (2 : Nat) ^ 31 = 2147483648 := by decide
+  rw [e1, e2, e3]
+  rw [e4] at h
+  omega
+
+/-- the size line `"%x" CR` of a chunk of `n < 2^31` bytes parses to `n` -/
+theorem hexToInt_hexDigitsOf (n : Nat) (h : n < 2 ^ 31) : hexToInt (hexDigitsOf n ++ [13]) = (n : Int) := by
+  unfold hexToInt
+  have hmem := hexDigitsOf_mem n
+  have hnn : ∀ c ∈ hexDigitsOf n ++ [13], c ≠ 0 := by
+    intro c hc
+    rcases List.mem_append.mp hc with hc | hc
+    · obtain ⟨d, hd, rfl⟩ := hmem c hc
+      exact (hexDigitChar_props d hd).1
+    · simp at hc; rw [hc]; decide
+  rw [cstr_of_no_nul _ hnn]
+  obtain ⟨d0, ds, hds⟩ := List.exists_cons_of_ne_nil (hexDigitsOf_ne_nil n)
+  obtain ⟨k, hk⟩ := hexDigits_of n [13] 0
+  have hval : hexDigits (hexDigitsOf n ++ [13]) 0 = n := by
+    rw [hk]; simp [hexDigits, hexVal]
+  obtain ⟨e0, he0, rfl⟩ := hmem d0 (by rw [hds]; simp)
+  have hp := hexDigitChar_props e0 he0
+  have hval' : hexDigits (hexDigitChar e0 :: (ds ++ [13])) 0 = n := by
+    rw [← List.cons_append, ← hds]; exact hval
+  have hstr : strtoul16 (hexDigitsOf n ++ [13]) = n := by
+    rw [hds, List.cons_append]
+    rw [strtoul16_plain _ _ hp.2.2.1 hp.2.2.2.1 hp.2.2.2.2.1 ?_ ?_]
+    · exact hval'
+    · intro x t hxt
+      cases ds with
+      | nil =>
+        simp only [List.nil_append, List.cons.injEq] at hxt
+        rw [← hxt.1]; decide
+      | cons d1 ds' =>
+        simp only [List.cons_append, List.cons.injEq] at hxt
+        obtain ⟨e1, he1, hd1⟩ := hmem d1 (by rw [hds]; simp)
+        rw [← hxt.1, hd1]
+        exact ⟨(hexDigitChar_props e1 he1).2.2.2.2.2.1, (hexDigitChar_props e1 he1).2.2.2.2.2.2⟩
+    · rw [hval']
+      have : (2 : Nat) ^ 31 < 2 ^ 64 := by decide
+      omega
+  rw [hstr]
+  exact wrap32_small n h
+
+theorem hexDigitsOf_length (k : Nat) : ∀ n, n < 16 ^ (k + 1) → (hexDigitsOf n).length ≤ k + 1 := by
+  induction k with
+  | zero =>
+    intro n hn
+    rw [hexDigitsOf]
+    have : n < 16 := by simpa using hn
+    simp [this]
+  | succ k ih =>
+    intro n hn
+    rw [hexDigitsOf]
+    by_cases h : n < 16
+    · simp [h]
+    · simp only [h, dite_false, List.length_append, List.length_cons, List.length_nil]
+      have : n / 16 < 16 ^ (k + 1) := by
+        rw [Nat.pow_succ] at hn
+        omega
+      have := ih (n / 16) this
+      omega
+
+/-- the canonical chunked encoding of a list of chunks: `"%x" CRLF data CRLF` each, then `0 CRLF CRLF` -/
+def chunkedBody (chunks : List Bytes) : Bytes :=
+  chunks.flatMap (fun d => hexDigitsOf d.length ++ 13 :: 10 :: (d ++ [13, 10])) ++ [48, 13, 10, 13, 10]
+
+theorem read_faithful_chunked_canon (m t p : Bytes) (hs : List (Bytes × Bytes)) (chunks : List Bytes) (rest : Bytes)
+    (hw : HeadOk m t p hs) (hch : ∀ d ∈ chunks, 0 < d.length ∧ d.length < 2 ^ 31)
+    (hcl : hasHeader (hdrDic hs) sContentLength = false)
+    (hte : (cstr (header (hdrDic hs) sTransferEncoding) == sChunked) = true) :
+    ∃ tg, parseTarget t = .ok tg ∧
+      AslModel.HttpParse.read
+          { inp := m ++ 32 :: (t ++ 32 :: (p ++ 13 :: 10 :: (hdrBlock hs ++ 13 :: 10 :: (chunkedBody chunks ++ rest)))) } =
+        .ok (mkReq m t p tg (hdrDic hs) chunks.flatten, { inp := rest }) := by
+  let cs : List Chunk := chunks.map fun d => ⟨hexDigitsOf d.length, d⟩
+  have hcs : ∀ c ∈ cs, ChunkOk c := by
+    intro c hc
+    obtain ⟨d, hd, rfl⟩ := List.mem_map.mp hc
+    obtain ⟨h0, h31⟩ := hch d hd
+    refine ⟨?_, ?_, hexToInt_hexDigitsOf _ h31, h0⟩
+    · intro b hb
+      obtain ⟨e, he, rfl⟩ := hexDigitsOf_mem _ b hb
+      exact (hexDigitChar_props e he).2.1
+    · have : d.length < 16 ^ (7 + 1) := by
+        have : (2 : Nat) ^ 31 < 16 ^ 8 := by decide
+        omega
+      have := hexDigitsOf_length 7 d.length this
+      simp only at this ⊢
+      omega
+  have hbytes : cs.flatMap Chunk.bytes = chunks.flatMap (fun d => hexDigitsOf d.length ++ 13 :: 10 :: (d ++ [13, 10])) := by
+    simp only [cs, List.flatMap_map, Chunk.bytes]
+  have hdata : (cs.map Chunk.data).flatten = chunks.flatten := by
+    simp only [cs, List.map_map]
+    congr 1
+    exact List.map_id' _
+  have := read_faithful_chunked_aux { inp := m ++ 32 :: (t ++ 32 :: (p ++ 13 :: 10 :: (hdrBlock hs ++ 13 :: 10 :: (chunkedBody chunks ++ rest)))) }
+    m t p hs cs [48] rest hw hcs (by decide) (by decide) (by decide) hcl hte rfl rfl
+    (by simp only [hbytes, chunkedBody, List.append_assoc, List.cons_append, List.nil_append])
+  rw [hdata] at this
+  exact this
+
 end AslProofs.HttpParse
